@@ -20,6 +20,7 @@ type env struct {
 	pos   token.Pos
 	errs  []string
 	noLocals bool
+	depth    int
 }
 
 func (vc *FuncVC) newEnv(cur, old *State, pos token.Pos) *env {
@@ -603,6 +604,35 @@ func (vc *FuncVC) trCall(e *env, n *ECall) Term {
 			a, _ := vc.unifyNil(args[0], Term{S: "nil", Sort: nilSort})
 			return eq(a, vc.ss.zero(a.Sort))
 		}
+		if sf, ok := vc.eng.specs.SpecFuns[f.Name]; ok {
+			if len(sf.Params) != len(args) {
+				return e.fail("specfun %s expects %d arguments", f.Name, len(sf.Params))
+			}
+			saved := map[string]*Term{}
+			for _, pn := range sf.Params {
+				if old, ok := e.vars[pn]; ok {
+					o := old
+					saved[pn] = &o
+				} else {
+					saved[pn] = nil
+				}
+			}
+			for i, pn := range sf.Params {
+				e.vars[pn] = args[i]
+			}
+			r := vc.tr(e, sf.Body)
+			for k, v := range saved {
+				if v == nil {
+					delete(e.vars, k)
+				} else {
+					e.vars[k] = *v
+				}
+			}
+			return r
+		}
+		if r, ok := vc.pureRepoCall(e, f.Name, args); ok {
+			return r
+		}
 		if fd, ok := vc.eng.specs.Funs[f.Name]; ok {
 			for i := range args {
 				if args[i].Sort == nilSort && i < len(fd.Args) {
@@ -618,6 +648,7 @@ func (vc *FuncVC) trCall(e *env, n *ECall) Term {
 		var rsort string
 		var rt types.Type
 		var deps []string
+		var pureC *Contract
 		if recv.GoT != nil {
 			ms := types.NewMethodSet(recv.GoT)
 			sel := ms.Lookup(nil, f.Name)
@@ -671,6 +702,7 @@ func (vc *FuncVC) trCall(e *env, n *ECall) Term {
 				if !c.Pure {
 					return e.fail("method %s is not declared pure", f.Name)
 				}
+				pureC = c
 			} else {
 				deps = []string{"ASH", "ASHP"}
 			}
@@ -679,13 +711,19 @@ func (vc *FuncVC) trCall(e *env, n *ECall) Term {
 			switch f.Name {
 			case "Len":
 				rsort, deps = "Int", []string{"ASHP"}
+			case "At":
+				rsort, deps = "Iface", []string{"ASHP"}
 			default:
 				return e.fail("method %s on untyped term %s", f.Name, recv.S)
 			}
 		}
 		var as []Term
 		for _, dep := range deps {
-			as = append(as, vc.get(e.st(), "G:"+dep, "Int"))
+			ds := "Int"
+			if gs, ok := vc.ghostSort(dep); ok {
+				ds = gs
+			}
+			as = append(as, vc.get(e.st(), "G:"+dep, ds))
 		}
 		as = append(as, recv)
 		as = append(as, args...)
@@ -697,7 +735,102 @@ func (vc *FuncVC) trCall(e *env, n *ECall) Term {
 		vc.eng.needFun(vc, fname, sorts, rsort)
 		r := app(rsort, fname, as...)
 		r.GoT = rt
+		if pureC != nil {
+			vc.pureFacts(e, pureC, recv, args, r)
+		}
 		return r
 	}
 	return e.fail("bad call expression")
+}
+
+// pureRepoCall: name(args) or name_k(args) in a specification, where name is a function of the
+// package under verification whose contract is declared pure: the k-th result of that function.
+func (vc *FuncVC) pureRepoCall(e *env, name string, args []Term) (Term, bool) {
+	idx := 0
+	base := name
+	if i := strings.LastIndex(name, "_"); i > 0 && i == len(name)-2 && name[i+1] >= '0' && name[i+1] <= '9' {
+		base = name[:i]
+		idx = int(name[i+1] - '0')
+	}
+	pkg := vc.fn.Pkg
+	for p := vc.fn; pkg == nil && p != nil; p = p.Parent() {
+		pkg = p.Pkg
+	}
+	if pkg == nil {
+		return Term{}, false
+	}
+	key := strings.ReplaceAll(pkg.Pkg.Path(), modPrefix, "") + "." + base
+	c := vc.eng.specs.Contracts[key]
+	fn := vc.eng.fnByKey[key]
+	if c == nil || fn == nil || !c.Pure {
+		return Term{}, false
+	}
+	sig := fn.Signature
+	if idx >= sig.Results().Len() {
+		return Term{}, false
+	}
+	var as []Term
+	var sorts []string
+	for _, dep := range pureDeps(c) {
+		ds := "Int"
+		if gs, ok := vc.ghostSort(dep); ok {
+			ds = gs
+		}
+		as = append(as, vc.get(e.st(), "G:"+dep, ds))
+		sorts = append(sorts, ds)
+	}
+	for i, a := range args {
+		if a.Sort == nilSort && i < sig.Params().Len() {
+			a = vc.ss.zero(vc.ss.sortOf(sig.Params().At(i).Type()))
+		}
+		as = append(as, a)
+		sorts = append(sorts, a.Sort)
+	}
+	fname := "f!" + smtIdent(key)
+	if sig.Results().Len() > 1 {
+		fname = fmt.Sprintf("%s!%d", fname, idx)
+	}
+	rt := sig.Results().At(idx).Type()
+	vc.eng.needFun(vc, fname, sorts, vc.ss.sortOf(rt))
+	r := app(vc.ss.sortOf(rt), fname, as...)
+	r.GoT = rt
+	return r, true
+}
+
+// pureFacts: a specification that applies a pure method also gets that method's (assumed or
+// proved) postconditions for this very application, e.g. p.Len() >= 0. Skipped for terms that
+// mention a bound variable.
+func (vc *FuncVC) pureFacts(e *env, c *Contract, recv Term, args []Term, result Term) {
+	if len(c.Ens) == 0 || strings.Contains(result.S, "q!") || e.depth > 2 {
+		return
+	}
+	key := "purefact:" + result.S
+	if vc.subSeen[key] {
+		return
+	}
+	vc.subSeen[key] = true
+	e2 := vc.newEnv(e.st(), e.st(), e.pos)
+	e2.depth = e.depth + 1
+	e2.noLocals = true
+	e2.vars["this"] = recv
+	e2.vars["result"] = result
+	e2.vars["result0"] = result
+	for i, a := range args {
+		e2.vars[fmt.Sprintf("$arg%d", i+1)] = a
+	}
+	for _, en := range c.Ens {
+		if !en.active(vc.prop) {
+			continue
+		}
+		n := len(vc.specErrors)
+		f := vc.tr(e2, en.E)
+		if len(vc.specErrors) > n {
+			vc.specErrors = vc.specErrors[:n] // a clause not expressible out of call context: skip it
+			continue
+		}
+		if strings.Contains(f.S, "q!") && !strings.Contains(f.S, "(forall") {
+			continue
+		}
+		vc.emit("(assert %s)", f.S)
+	}
 }
